@@ -89,6 +89,7 @@ type FuncEnc struct {
 	usedContracts map[string]bool
 	pass   int
 	seqLen map[string]string // spec-level sequences: element-array term -> length term
+	sentinelVals []string
 }
 
 type CallSite struct {
@@ -138,6 +139,23 @@ type loopInfo struct {
 	header *ssa.BasicBlock
 	body   map[*ssa.BasicBlock]bool
 	phis   []*ssa.Phi
+}
+
+// sentinelSeen registers the value constant of an immutable sentinel error global and asserts it differs
+// from every other sentinel seen in this encoding (each is a distinct errors.New allocation).
+func (fe *FuncEnc) sentinelSeen(n string, g *ssa.Global) {
+	if !fe.eng.sentinels[g] || fe.eng.mutGlobals[g] {
+		return
+	}
+	for _, o := range fe.sentinelVals {
+		if o == n {
+			return
+		}
+	}
+	for _, o := range fe.sentinelVals {
+		fe.pre.decl(fmt.Sprintf("(assert (not (= %s %s)))", n, o))
+	}
+	fe.sentinelVals = append(fe.sentinelVals, n)
 }
 
 func (fe *FuncEnc) fresh(base string) string {
